@@ -10,7 +10,7 @@ def run(rep):
     rt_common.run_runtime(rep, PID, "wf_C02",
         ["fun (A V : Type) sem sem_slf dv => @C02_realtime A V sem sem_slf dv {i} {w}",
          "fun (A V : Type) sem sem_slf dv => @C02_returned_was_sent A V sem sem_slf dv {i} {w}"],
-        rt_common.std_configs(rng, rep.tier, families=False),
+        rt_common.std_configs(rng, rep.tier, families=True),
         dfs=("bad_loss", "false"),
         search="c02_search", search_what="two clients, every messaging method, fair schedule; anomalies: 1 a call returned while alive but was never handed to the channel, 2 a client's calls executed out of issue order")
     runs = []
@@ -19,7 +19,11 @@ def run(rep):
             runs.append(["mixed", lib, ch, "clients=%d" % (4 if rep.tier == "quick" else 8), "calls=%d" % (60 if rep.tier == "quick" else 300), "seed=%d" % (rep.seed % 100000)])
             if PID in ("C02", "C03"):
                 runs.append(["burst", lib, ch, "k=%d" % (ch + 3 if ch else 6)])
-    rt_common.impl_side(rep, PID, runs, lambda a, d: probe.oracle_mixed(d) if a[0] == "mixed" else probe.oracle_burst(d, None if a[2] == 0 else a[2]))
+    if PID == "C02":
+        # per-handle order through a family member (fire-and-forget non-mutating calls followed by a value-returning one)
+        runs += [["family", lib, 0, "lock=" + lock] for lib in ("std", "tokio", "async_std") for lock in ("Mutex", "RwLock")]
+    rt_common.impl_side(rep, PID, runs, lambda a, d: probe.oracle_mixed(d) if a[0] == "mixed" else
+                        [x for x in probe.oracle_family(d) if "C02" in x or x.startswith("harness")] if a[0] == "family" else probe.oracle_burst(d, None if a[2] == 0 else a[2]))
 
 
 def replay(rep, path):
